@@ -3,7 +3,7 @@ from __future__ import annotations
 
 from typing import Dict, Optional, Tuple
 
-from ..engine.match import Spec, require_return, residual
+from ..engine.match import Spec, require_return, residual, same_value
 from ..engine.repo import AnalysisError
 from ..engine.report import Check
 from ..engine.terms import C, Term, show, subterms
@@ -36,7 +36,7 @@ def r04_1(ck: Check) -> None:
         "(block.hash() if block.get_total_work() > self.block_by_hash[self.current_chain_hash].get_total_work() else self.current_chain_hash)" % PREV)
     got = kw["current_chain_hash"]
     construct = "head' = new block if (no head or new block extends the head) else (new block if work(new) > work(head), STRICTLY) else head"
-    if got == want:
+    if same_value(got, want):
         ck.ok("R04.1", construct, "ties keep the first-seen tip", summ.fi.loc)  # type: ignore
     else:
         ck.violated("R04.1", construct, "the head-update decision table is %s" % show(got)[:400], summ.fi.loc)  # type: ignore
